@@ -177,6 +177,13 @@ def main(tier, replay=None):
         for x in edge:
             if x != 0:
                 cases.append({'f': f, 'args': [values.flt_exact(x)]})
+    # long spellings of ordinary numbers: many zeros after the point, trailing zeros, padding - numeric text however long
+    longs = ['0.000000000000000000000000000000125', '4000000000000000000000000000000000000', '1.50000000000000000000000000000000000',
+             '0000000000000000000000000000000000002', '      ' * 6 + '7.5', '-0.0000000000000000000000000000000000005', '2.' + '0' * 60,
+             '1' + '0' * 40 + '.5']
+    for f in ('SQRT', 'ABS', 'EXP', 'LN', 'ATAN', 'SIN', 'LOG10', 'COS', 'TANH', 'ASINH', 'ACOT', 'DEGREES'):
+        for t in longs:
+            cases.append({'f': f, 'args': [enc(t)]})
     obs = fncases.observe(lib, cases, literal=False, twins=True)
     so = suite.observations({'ABS','SQRT','EXP','LN','LOG','LOG10','POWER','SIN','COS','TAN','COT','ASIN','ACOS','ATAN','ACOT','SINH','COSH','TANH','ASINH','ACOSH','ATANH','ACOTH','ATAN2','RADIANS','DEGREES'}, len(obs) + 1)   # the same functions as the repository's own tests call them
     run.extra['calls_from_repository_tests'] = len(so)
